@@ -25,8 +25,9 @@ def run(rep):
     R.iteration_labels(rep)
     R.independent_lists(rep)
     R.template_agreement(rep)
+    R.dataset_read_key(rep)
     R.separator_guard(rep)
     R.empty_selection_means_all(rep)
     R.one_append_per_column(rep)
     rep.floor("row-index-provenance", 5)
-    rep.floor("template-agreement", 8)
+    rep.floor("template-agreement", 9)
